@@ -204,8 +204,11 @@ Definition satisfies_seq (t : strace) : bool :=
 
 (* A write whose storage call returns an error may have been applied nevertheless: not at all
    (FErrBefore), completely (FErrAfter: a timeout after the effect), or - a batch - in its first k items
-   (FPartial k: unlogged batches, chunked batch writes). *)
-Inductive fault := FNone | FErrBefore | FErrAfter | FPartial (k : nat).
+   (FPartial k: unlogged batches, chunked batch writes).
+   FRaw is not a fault of the storage: the operation is applied to the storage directly, not through the cache -
+   what an earlier run of the process did before this cache existed (a cache starts cold over whatever the
+   storage holds). *)
+Inductive fault := FNone | FErrBefore | FErrAfter | FPartial (k : nat) | FRaw.
 
 Definition is_write (o : sop) : bool :=
   match o with OPut _ _ _ | OPutBatch _ | OIns _ _ _ _ | OCas _ _ _ _ _ | OCad _ _ _ => true | _ => false end.
@@ -216,7 +219,10 @@ Definition write_keys (o : sop) : list (bytes * bytes) :=
   | _ => []
   end.
 (* faults are injected into writes only *)
-Definition faulty (f : fault) (o : sop) : bool := match f with FNone => false | _ => is_write o end.
+Definition faulty (f : fault) (o : sop) : bool := match f with FNone | FRaw => false | _ => is_write o end.
+(* the clock is shared: an advance is never "raw" *)
+Definition bypasses (f : fault) (o : sop) : bool :=
+  match f, o with FRaw, OAdvance _ => false | FRaw, _ => true | _, _ => false end.
 
 Section SeqX.
 Context {U : Type} (ustep : U -> sop -> U * sout).
@@ -224,7 +230,7 @@ Context {U : Type} (ustep : U -> sop -> U * sout).
 (* what the storage holds after a write that reported an error *)
 Definition failed_under (u : U) (f : fault) (o : sop) : U :=
   match f with
-  | FNone | FErrBefore => u
+  | FNone | FErrBefore | FRaw => u
   | FErrAfter => fst (ustep u o)
   | FPartial k => match o with OPutBatch items => fst (ustep u (OPutBatch (firstn k items))) | _ => u end
   end.
@@ -247,7 +253,9 @@ Definition mark_unknown (kg : bool) (c : cache) (k : bytes * bytes) : cache :=
 (* [em] = true: a write that failed marks its keys (the code since the repair of C07-WRITEERR); false: it
    leaves the cache as it was (the code before) *)
 Definition cache_fstep (bm kg xm em : bool) (s : cst (U:=U)) (fo : fault * sop) : cst (U:=U) * sout :=
-  if faulty (fst fo) (snd fo)
+  if bypasses (fst fo) (snd fo)
+  then let '(u', out) := ustep (c_under s) (snd fo) in (mkC u' (c_cache s) (c_now s), out)
+  else if faulty (fst fo) (snd fo)
   then (mkC (failed_under (c_under s) (fst fo) (snd fo))
             (if em then fold_left (mark_unknown kg) (write_keys (snd fo)) (c_cache s) else c_cache s)
             (c_now s), RErr)
